@@ -169,6 +169,38 @@ inline bool struct_op(const Toks &t, Result &r) {
         r.tag("roundtrip").tag("kind_" + F->kind);
         return true;
     }
+    if (op == "params_nested") {
+        // params_nested Root c1=T1 … ck=Tk field value : nested configuration along a chain of child members
+        if (t.size() < 4) throw bad_input("args");
+        const StructReg *S = find_struct(t[1]); if (!S || S->external) throw bad_input("struct");
+        const std::string f = t[t.size() - 2], v = t.back();
+        const StructReg *cur = S; std::string dotted;
+        for (size_t i = 2; i + 2 < t.size(); ++i) {
+            size_t eq = t[i].find('='); if (eq == std::string::npos || t[i].find('=', eq + 1) != std::string::npos) throw bad_input("chain");
+            std::string cn = t[i].substr(0, eq), tn = t[i].substr(eq + 1);
+            const FieldReg *C = cur->field(cn); if (!C || C->kind != "child") throw bad_input("child");
+            cur = find_struct(tn); if (!cur || cur->external) throw bad_input("table");
+            dotted += cn + ".";
+        }
+        const FieldReg *F = cur->field(f); if (!F || F->kind == "child") throw bad_input("field");
+        dotted += f;
+        ptree in = base_tree(*S); in.put(dotted, v);
+        unknown_log().clear();
+        try {
+            ptree out = S->roundtrip(in), dout = S->roundtrip(base_tree(*S));
+            auto o = out.get_optional<std::string>(dotted), d = dout.get_optional<std::string>(dotted);
+            if (!o) r.out = "not-exported";
+            else if (*o == v) r.out = dotted + "=" + v;
+            else if (d && *o == *d) r.out = dotted + "=default";
+            else r.out = dotted + "=" + *o;
+            r.nontrivial = !(d && *d == v) && t.size() > 4;
+            if (!F->export_exempt && (!F->cand.empty() || F->kind == "enum") && r.out != dotted + "=" + v)
+                r.fail("struct " + t[1] + " nested key " + dotted + ": set to " + v + " through the property tree but the export gives " + r.out);
+            for (auto &u : unknown_log()) r.fail("struct " + t[1] + " nested key " + dotted + ": key " + u + " reported as unknown");
+        } catch (const std::exception &e) { r.out = "exception"; r.fail("struct " + t[1] + " nested key " + dotted + ": exception " + std::string(e.what()).substr(0, 80)); }
+        r.tag("nested").tag("depth_" + std::to_string(t.size() - 4));
+        return true;
+    }
     if (op == "params_export_keys") {
         const std::string s = c.tok(); c.expect_end();
         const StructReg *S = find_struct(s); if (!S) throw bad_input("struct");
@@ -262,6 +294,21 @@ inline void gen_struct_ops(vh::Rng &rng, bool thorough, std::vector<std::string>
         ex.push_back("k" + std::to_string(rng.range(0, 999)));
         for (auto &k : ex) lines.push_back("params_unknown " + S.name + " " + k);
     }
+}
+// nested paths: `chain` = "Root c1=T1 … ck=Tk field"; values are the candidates of the final member
+inline void gen_nested_ops(vh::Rng &rng, bool thorough, const std::vector<std::string> &chains, std::vector<std::string> &lines) {
+    for (auto &ch : chains) {
+        Toks t = vh::split(ch);
+        const std::string last = t.size() > 2 ? t[t.size() - 2].substr(t[t.size() - 2].find('=') + 1) : t[0];
+        const StructReg *L = find_struct(last); const FieldReg *F = L ? L->field(t.back()) : nullptr;
+        std::vector<std::string> vals = F ? F->cand : std::vector<std::string>();
+        if (F && F->kind == "enum") { const EnumReg *E = find_enum(F->enum_name); if (E) for (auto &id : E->idents) vals.push_back(E->print(id)); }
+        if (vals.empty()) vals.push_back("1");
+        if (thorough) for (auto &v : vals) lines.push_back("params_nested " + ch + " " + v);
+        else lines.push_back("params_nested " + ch + " " + rng.pick(vals));
+    }
+    lines.push_back("params_nested make_solver precond=no_such_table x 1");
+    lines.push_back("params_nested make_solver");
 }
 inline void gen_enum_text_ops(vh::Rng &rng, bool thorough, std::vector<std::string> &lines) {
     for (auto &E : enums()) {
